@@ -11,6 +11,7 @@ import (
 	"github.com/mimecast/dtail/internal/config"
 	"github.com/mimecast/dtail/internal/omode"
 	"github.com/mimecast/dtail/verif/explore"
+	"github.com/mimecast/dtail/verif/vos"
 	"github.com/mimecast/dtail/verif/vrt"
 )
 
@@ -23,10 +24,15 @@ type c06Params struct {
 	Interval int // seconds; 0 = default (5)
 	Glob     bool
 	D        int // deviation bound for this scenario (0 = tier default)
+	// ReadDelayMs makes every read(2) of the data files take that long (virtual
+	// time), so that the run spans the query interval and dtail's timers.
+	ReadDelayMs int
+	Policy      int
+	Long        bool // offer long demotions (goroutine delayed up to 150 ms of virtual time)
 }
 
 func (p c06Params) String() string {
-	return fmt.Sprintf("servers=%d files=%v catlimit=%d interval=%d glob=%v d=%d", p.Servers, p.Files, p.CatLimit, p.Interval, p.Glob, p.D)
+	return fmt.Sprintf("servers=%d files=%v catlimit=%d interval=%d glob=%v d=%d readdelay=%dms policy=%d long=%v", p.Servers, p.Files, p.CatLimit, p.Interval, p.Glob, p.D, p.ReadDelayMs, p.Policy, p.Long)
 }
 
 func c06Setup(p c06Params) (what string, perKey map[string][2]float64) {
@@ -59,7 +65,7 @@ func c06Scenario(p c06Params, idx int) *explore.Scenario {
 		servers = append(servers, fmt.Sprintf("srv%d", i))
 	}
 	outfile := fmt.Sprintf("%s/c06-%d.csv", Scratch(), idx)
-	sc := &explore.Scenario{Name: "c06", Params: p.String(), MaxSteps: 800000, Horizon: 3 * time.Minute, Demotion: true}
+	sc := &explore.Scenario{Name: "c06", Params: p.String(), MaxSteps: 800000, Horizon: 3 * time.Minute, Demotion: true, LongDemotion: p.Long, Policy: vrt.Policy(p.Policy)}
 	sc.Run = func(cfg vrt.Config) (string, string, vrt.Result) {
 		var out, viol string
 		var hooks []vrt.HookEvent
@@ -78,7 +84,13 @@ func c06Scenario(p c06Params, idx int) *explore.Scenario {
 				args.QueryStr += fmt.Sprintf(" interval %d", p.Interval)
 			}
 			r := RunClientBody(ClientOpts{Kind: "map", Args: args, ForceServerless: true, MaprMode: clients.DefaultMode,
-				Mutate: func() { config.Server.MaxConcurrentCats = p.CatLimit }})
+				Mutate: func() {
+					config.Server.MaxConcurrentCats = p.CatLimit
+					if p.ReadDelayMs > 0 {
+						vos.S.ReadDelay = time.Duration(p.ReadDelayMs) * time.Millisecond
+						vos.S.ReadDelayPrefix = Scratch() + "/c06/"
+					}
+				}})
 			hooks = vrt.W.Hooks
 			if r.Err != "" {
 				viol = "client error " + r.Err
@@ -139,7 +151,7 @@ func c06Scenario(p c06Params, idx int) *explore.Scenario {
 		return out, viol, res
 	}
 	sc.Filter = func(pt *vrt.Point, alt int) bool {
-		if pt.Alts[alt].Kind == vrt.AltDemote {
+		if pt.Alts[alt].Kind != vrt.AltRun {
 			return true
 		}
 		switch pt.Infos[alt].Kind {
@@ -224,6 +236,8 @@ func c06ParamSets(tier string) (ps []c06Params, d int) {
 			{Servers: 1, Files: []int{1, 1}, CatLimit: 2, Glob: true},
 			{Servers: 1, Files: []int{1, 1}, CatLimit: 1, Glob: true, D: 2},
 			{Servers: 1, Files: []int{1, 2}, CatLimit: 2},
+			{Servers: 1, Files: []int{2}, CatLimit: 2, Interval: 1, ReadDelayMs: 500, D: 2, Long: true},
+			{Servers: 2, Files: []int{1}, CatLimit: 2, Policy: 2},
 		}, 1
 	}
 	for _, srv := range []int{1, 2, 3} {
